@@ -28,12 +28,12 @@ Proof.
   - destruct r; [constructor | cbn in Hk; lia].
   - destruct r as [|b t]; [constructor|]. cbn [line_starts_from].
     symmetry in Hr. destruct (skipn_cons_inv _ _ _ _ _ Hr) as (Li & Ht & Ni).
-    assert (Rt : Forall (fun n => i < n /\ after_break n) (line_starts_from t (i + 1))).
-    { eapply Forall_impl; [|apply (IH t (i + 1)); [cbn in Hk; lia | rewrite Nat.add_1_r; symmetry; exact Ht]].
+    assert (Rt : Forall (fun n => i < n /\ after_break n) (line_starts_from t (S i))).
+    { eapply Forall_impl; [|apply (IH t (S i)); [cbn in Hk; lia | symmetry; exact Ht]].
       cbn. intros n [A B]. split; [lia | exact B]. }
-    assert (Brk : forall x, b = x -> is_nlb x = true -> after_break (i + 1)).
+    assert (Brk : forall x, b = x -> is_nlb x = true -> after_break (S i)).
     { intros x -> Hx. unfold after_break. repeat split; try lia.
-      exists x. replace (i + 1 - 1) with i by lia. split; assumption. }
+      exists x. replace (S i - 1) with i by lia. split; assumption. }
     destruct (b =? 13)%Z eqn:C13.
     + apply Z.eqb_eq in C13.
       destruct t as [|b' t'].
@@ -43,8 +43,8 @@ Proof.
            destruct (skipn_cons_inv _ _ _ _ _ Ht) as (Li' & Ht' & Ni').
            constructor.
            ++ split; [lia|]. unfold after_break. repeat split; try lia.
-              exists b'. replace (i + 2 - 1) with (S i) by lia. split; [exact Ni' | subst; reflexivity].
-           ++ eapply Forall_impl; [|apply (IH t' (i + 2)); [cbn in Hk; lia | replace (i + 2) with (S (S i)) by lia; symmetry; exact Ht']].
+              exists b'. replace (S (S i) - 1) with (S i) by lia. split; [exact Ni' | subst; reflexivity].
+           ++ eapply Forall_impl; [|apply (IH t' (S (S i))); [cbn in Hk; lia | symmetry; exact Ht']].
               cbn. intros n [A B]. split; [lia | exact B].
         -- constructor; [|exact Rt]. split; [lia|]. apply (Brk 13%Z); [exact C13 | reflexivity].
     + destruct (b =? 10)%Z eqn:C10.
